@@ -69,10 +69,23 @@ pub fn gen(seed: u64, thorough: bool) {
     // ---- (a) k threads on one shared engine, random start stagger, mixed synthesize / generator use
     let nsched = if thorough { 500 } else { 60 };
     for i in 0..nsched {
+        // every fifth schedule: three different compatible voices blended with off-vertex weights (a sum over voices whose
+        // order must not depend on anything but the list: seeded change C03j, terms added in a hash map's iteration order)
+        let three = i % 5 == 2;
         let (factory, kind): (Box<dyn Fn() -> Engine>, &'static str) =
-            if i % 3 == 0 { (Box::new(|| Engine::load(&[BUNDLED_VOICE]).expect("bundled voice")), "bundled") } else { src.any_engine_factory(&mut rng) };
+            if three {
+                let (vs, _) = crate::c19::compatible_voices(&mut rng, 3, &src.pool, false);
+                (Box::new(move || crate::c19::engine_of(vs.clone()).expect("compatible voices")), "three-voices")
+            } else if i % 3 == 0 { (Box::new(|| Engine::load(&[BUNDLED_VOICE]).expect("bundled voice")), "bundled") } else { src.any_engine_factory(&mut rng) };
         let mut e = factory();
         random_condition(&mut rng, &mut e, true);
+        if three {
+            let ns = e.voices.global_metadata().num_streams;
+            let iw = e.condition.get_interporation_weight_mut();
+            let w = [0.5, 0.3, 0.2];
+            iw.set_duration(&w).expect("weights");
+            for s in 0..ns { iw.set_parameter(s, &[0.2, 0.5, 0.3]).expect("weights"); iw.set_gv(s, &w).expect("weights"); }
+        }
         // every fourth schedule runs with phoneme alignment on, the utterances carrying no time stamps, stamps on all lines but
         // the last ones, or on the first line only — the paths that fall back to model durations (seeded change C03h: a
         // process-wide "notice printed once" latch that also guarded the fallback, so only the first call in the process was right)
